@@ -171,3 +171,890 @@ theorem loadRows_length (t : T) (a' : Nat) : (loadRows t a').length = t.rows.len
   omega
 
 end Verif.C10.L
+
+namespace Verif.C10
+open Verif.Py
+
+/-- the bookkeeping invariant of a table (DESIGN: `Aligned`): the file has `pers` lines, a placeholder
+only stands at a position that has a file line, positions below both counters are untouched
+placeholders, and the first-modified index never exceeds the length. -/
+structure Aligned (t : T) : Prop where
+  pers_eq : t.pers = t.file.length
+  none_lt : ∀ i, t.rows[i]? = some none → i < t.pers
+  below_vol : ∀ i : Nat, (i : Int) < t.vol → i < t.pers → t.rows[i]? = some none
+  vol_le : t.vol ≤ t.rows.length
+
+namespace L
+
+theorem Aligned.nd {t : T} (h : Aligned t) : ND t.rows t.file := by
+  intro i hi; have := h.none_lt i hi; rw [h.pers_eq] at this; exact this
+
+theorem splice_inv (rows post : List (Option Row)) (vals : List Row) (pers : Nat) (vol vol' : Int) (a' : Nat)
+    (hnl : ∀ i, rows[i]? = some none → i < pers)
+    (hbv : ∀ i : Nat, (i : Int) < vol → i < pers → rows[i]? = some none)
+    (ha : a' ≤ rows.length) (hv1 : vol' ≤ vol) (hv2 : vol' ≤ a')
+    (hpost : ∀ j, post[j]? = some none → a' + vals.length + j < pers) :
+    let rows2 := rows.take a' ++ vals.map some ++ post
+    (∀ i, rows2[i]? = some none → i < pers)
+    ∧ (∀ i : Nat, (i : Int) < vol' → i < pers → rows2[i]? = some none)
+    ∧ vol' ≤ rows2.length := by
+  intro rows2
+  have hlen : (rows.take a').length = a' := by simp [ha]
+  refine ⟨?_, ?_, ?_⟩
+  · intro i hi
+    by_cases h1 : i < a'
+    · have : rows2[i]? = rows[i]? := by
+        simp only [rows2, List.append_assoc]
+        rw [List.getElem?_append_left (by omega), List.getElem?_take]; simp [h1]
+      rw [this] at hi; exact hnl i hi
+    · by_cases h2 : i < a' + vals.length
+      · have : rows2[i]? = (vals.map some)[i - a']? := by
+          simp only [rows2, List.append_assoc]
+          rw [List.getElem?_append_right (by omega), hlen, List.getElem?_append_left (by simp; omega)]
+        rw [this] at hi
+        simp at hi
+      · have : rows2[i]? = post[i - a' - vals.length]? := by
+          simp only [rows2, List.append_assoc]
+          rw [List.getElem?_append_right (by omega), hlen, List.getElem?_append_right (by simp; omega)]
+          simp
+        rw [this] at hi
+        have := hpost _ hi
+        omega
+  · intro i hi hp
+    have h1 : i < a' := by omega
+    have : rows2[i]? = rows[i]? := by
+      simp only [rows2, List.append_assoc]
+      rw [List.getElem?_append_left (by omega), List.getElem?_take]; simp [h1]
+    rw [this]; exact hbv i (by omega) hp
+  · simp only [rows2, List.length_append, hlen]
+    omega
+
+theorem resolve_set (rows : List (Option Row)) (f : List Row) (i : Nat) (v : Row) :
+    resolve (rows.set i (some v)) f = (resolve rows f).set i (some v) := by
+  apply List.ext_getElem?
+  intro j
+  rw [resolve_getElem?, List.getElem?_set, List.getElem?_set, resolve_length]
+  by_cases h : i = j
+  · subst h
+    by_cases h2 : i < rows.length <;> simp [h2, resolve_getElem?]
+  · simp [h, resolve_getElem?]
+
+theorem resolve_setExt (rows : List (Option Row)) (f : List Row) (idx : List Int) (vals : List Row) :
+    resolve (setExt rows idx (vals.map some)) f = setExt (resolve rows f) idx (vals.map some) := by
+  induction idx generalizing rows vals with
+  | nil => simp [setExt]
+  | cons i is ih =>
+    cases vals with
+    | nil => simp [setExt]
+    | cons v vs => simp only [List.map_cons, setExt]; rw [ih, resolve_set]
+
+theorem setExt_map_some (A : List Row) (idx : List Int) (vals : List Row) :
+    setExt (A.map some) idx (vals.map some) = (setExt A idx vals).map some := by
+  induction idx generalizing A vals with
+  | nil => simp [setExt]
+  | cons i is ih =>
+    cases vals with
+    | nil => simp [setExt]
+    | cons v vs => simp only [List.map_cons, setExt]; rw [← ih]; congr 1; simp [List.map_set]
+
+theorem setExt_length {α} (xs : List α) (idx : List Int) (vals : List α) :
+    (setExt xs idx vals).length = xs.length := by
+  induction idx generalizing xs vals with
+  | nil => simp [setExt]
+  | cons i is ih =>
+    cases vals with
+    | nil => simp [setExt]
+    | cons v vs => simp [setExt, ih]
+
+theorem setExt_none (rows : List (Option Row)) (idx : List Int) (vals : List Row) (j : Nat)
+    (h : (setExt rows idx (vals.map some))[j]? = some none) : rows[j]? = some none := by
+  induction idx generalizing rows vals with
+  | nil => simpa [setExt] using h
+  | cons i is ih =>
+    cases vals with
+    | nil => simpa [setExt] using h
+    | cons v vs =>
+      simp only [List.map_cons, setExt] at h
+      have := ih _ _ h
+      rw [List.getElem?_set] at this
+      split at this
+      · split at this <;> simp at this
+      · exact this
+
+theorem setExt_untouched {α} (xs : List α) (idx : List Int) (vals : List α) (j : Nat)
+    (h : ∀ x ∈ idx, (j : Int) < x) : (setExt xs idx vals)[j]? = xs[j]? := by
+  induction idx generalizing xs vals with
+  | nil => simp [setExt]
+  | cons i is ih =>
+    cases vals with
+    | nil => simp [setExt]
+    | cons v vs =>
+      simp only [setExt]
+      rw [ih _ _ (fun x hx => h x (by simp [hx])), List.getElem?_set]
+      have := h i (by simp)
+      have : i.toNat ≠ j := by omega
+      simp [this]
+
+theorem rangeList_lower {a b st x : Int} (hx : x ∈ rangeList a b st) : min a b ≤ x := by
+  unfold rangeList at hx
+  split at hx
+  · rename_i hpos
+    split at hx
+    · simp only [List.mem_map, List.mem_range] at hx
+      obtain ⟨k, _, rfl⟩ := hx
+      have : 0 ≤ st * (k : Int) := Int.mul_nonneg (by omega) (by omega)
+      omega
+    · simp at hx
+  · split at hx
+    · rename_i hneg
+      split at hx
+      · rename_i hlt
+        simp only [List.mem_map, List.mem_range] at hx
+        obtain ⟨k, hk, rfl⟩ := hx
+        have hq : 0 ≤ (a - b - 1) / (-st) := Int.ediv_nonneg (by omega) (by omega)
+        have hk' : (k : Int) ≤ (a - b - 1) / (-st) := by omega
+        have h1 : (-st) * (k : Int) ≤ (-st) * ((a - b - 1) / (-st)) :=
+          Int.mul_le_mul_of_nonneg_left hk' (by omega)
+        have h2 : (-st) * ((a - b - 1) / (-st)) ≤ a - b - 1 := Int.mul_ediv_self_le (by omega)
+        have h3 : (-st) * (k : Int) = -(st * (k : Int)) := by rw [Int.neg_mul]
+        omega
+      · simp at hx
+    · simp at hx
+
+
+theorem abs_length {t : T} (h : Aligned t) : (abs t).length = t.rows.length :=
+  absL_length _ _ (Aligned.nd h)
+
+theorem setSlice_ok (t t' : T) (sl : Slice) (vals : List Row) (h : Aligned t)
+    (hs : setSlice t sl vals = .ok t') :
+    Aligned t' ∧ specSetSlice t.width (abs t) sl vals = .ok (abs t')
+      ∧ t'.file = t.file ∧ t'.gz = t.gz ∧ t'.width = t.width := by
+  unfold setSlice at hs
+  split at hs
+  · cases hs
+  rename_i hck
+  unfold specSetSlice pySetSlice
+  rw [if_neg hck, abs_length h]
+  split at hs
+  · cases hs
+  rename_i a b st hidx
+  obtain ⟨hst0, hpos, hneg⟩ := sliceIndices_bounds hidx
+  have hnd := Aligned.nd h
+  by_cases hst : st = 1
+  · -- simple slice
+    subst hst
+    obtain ⟨ha0, han, hb0, hbn⟩ := hpos (by omega)
+    simp only [pySetIdx, if_true, true_and] at hs ⊢
+    by_cases hload : (vals.length : Int) ≠ max 0 (b - a)
+    · rw [if_pos hload] at hs
+      injection hs with hs
+      subst hs
+      have hA : (setSliceSimple (loadRows t a.toNat) a b (vals.map some))
+          = t.rows.take a.toNat ++ vals.map some ++ (resolve t.rows t.file).drop (max a b).toNat := by
+        unfold setSliceSimple
+        simp only
+        rw [loadRows_take t a.toNat (by omega), loadRows_drop t a.toNat (max a b).toNat (by omega) (by omega)]
+      have hres := resolve_splice_load t.rows t.file hnd a.toNat (max a b).toNat vals (by omega)
+      have hinv := splice_inv t.rows ((resolve t.rows t.file).drop (max a b).toNat) vals t.pers t.vol
+        (min t.vol (min a b)) a.toNat h.none_lt h.below_vol (by omega) (by omega) (by omega)
+        (by
+          intro j hj
+          have := resolve_ne_none _ _ hnd none (List.mem_of_getElem? (by rw [List.getElem?_drop] at hj; exact hj))
+          exact absurd rfl this)
+      refine ⟨⟨h.pers_eq, ?_, ?_, ?_⟩, ?_, rfl, rfl, rfl⟩
+      · simp only [hA]; exact hinv.1
+      · simp only [hA]; exact hinv.2.1
+      · simp only [hA]; exact hinv.2.2
+      · simp only [abs, hA]
+        rw [absL_of_resolve _ _ _ hres]
+        rfl
+    · rw [if_neg hload] at hs
+      injection hs with hs
+      subst hs
+      have hlen : a.toNat + vals.length = (max a b).toNat := by omega
+      have hA : (setSliceSimple t.rows a b (vals.map some))
+          = t.rows.take a.toNat ++ vals.map some ++ t.rows.drop (max a b).toNat := rfl
+      have hres := resolve_splice_noload t.rows t.file hnd a.toNat (max a b).toNat vals (by omega) hlen
+      have hinv := splice_inv t.rows (t.rows.drop (max a b).toNat) vals t.pers t.vol
+        (min t.vol (min a b)) a.toNat h.none_lt h.below_vol (by omega) (by omega) (by omega)
+        (by
+          intro j hj
+          rw [List.getElem?_drop] at hj
+          have := h.none_lt _ hj
+          omega)
+      refine ⟨⟨h.pers_eq, ?_, ?_, ?_⟩, ?_, rfl, rfl, rfl⟩
+      · simp only [hA]; exact hinv.1
+      · simp only [hA]; exact hinv.2.1
+      · simp only [hA]; exact hinv.2.2
+      · simp only [abs, hA]
+        rw [absL_of_resolve _ _ _ hres]
+        rfl
+  · -- extended slice
+    have hnl : ¬ (st = 1 ∧ (vals.length : Int) ≠ max 0 (b - a)) := fun hh => hst hh.1
+    rw [if_neg hnl] at hs
+    simp only [pySetIdx, if_neg hst, List.length_map] at hs ⊢
+    by_cases hl : (rangeList a b st).length = vals.length
+    · rw [if_pos hl] at hs ⊢
+      injection hs with hs
+      subst hs
+      have hres : resolve (setExt t.rows (rangeList a b st) (vals.map some)) t.file
+          = (setExt (abs t) (rangeList a b st) vals).map some := by
+        rw [resolve_setExt, resolve_eq_map_some _ _ hnd, setExt_map_some]; rfl
+      refine ⟨⟨h.pers_eq, ?_, ?_, ?_⟩, ?_, rfl, rfl, rfl⟩
+      · intro i hi
+        exact h.none_lt i (setExt_none _ _ _ _ hi)
+      · intro i hi hp
+        simp only at hi ⊢
+        rw [setExt_untouched]
+        · exact h.below_vol i (by omega) hp
+        · intro x hx
+          have := rangeList_lower hx
+          omega
+      · simp only [setExt_length]
+        have := h.vol_le
+        omega
+      · simp only [abs]
+        rw [absL_of_resolve _ _ _ hres]
+        rfl
+    · rw [if_neg hl] at hs
+      cases hs
+
+
+theorem setSlice_err (t : T) (sl : Slice) (vals : List Row) (e : Err) (h : Aligned t)
+    (hs : setSlice t sl vals = .error e) : specSetSlice t.width (abs t) sl vals = .error e := by
+  unfold setSlice at hs
+  unfold specSetSlice pySetSlice
+  split at hs
+  · rename_i hck; rw [if_pos hck]; cases hs; rfl
+  rename_i hck
+  rw [if_neg hck, abs_length h]
+  split at hs
+  · cases hs; rfl
+  rename_i a b st hidx
+  by_cases hst : st = 1
+  · subst hst
+    simp [pySetIdx] at hs
+  · have hnl : ¬ (st = 1 ∧ (vals.length : Int) ≠ max 0 (b - a)) := fun hh => hst hh.1
+    rw [if_neg hnl] at hs
+    simp only [pySetIdx, if_neg hst, List.length_map] at hs ⊢
+    by_cases hl : (rangeList a b st).length = vals.length
+    · rw [if_pos hl] at hs; cases hs
+    · rw [if_neg hl] at hs ⊢; cases hs; rfl
+
+theorem specSetSlice_single (w : Nat) (A : List Row) (j : Int) (r : Row) (h0 : 0 ≤ j) (h1 : j < A.length) :
+    specSetSlice w A ⟨some j, some (j + 1), none⟩ [r]
+      = if r.length ≠ w then .error .itsdbError else .ok (A.set j.toNat r) := by
+  unfold specSetSlice checkRows pySetSlice
+  have hidx : sliceIndices ⟨some j, some (j + 1), none⟩ A.length = some (j, j + 1, 1) := by
+    unfold sliceIndices
+    simp only [Option.getD_none]
+    rw [if_neg (by omega)]
+    simp only [Option.some.injEq, Prod.mk.injEq, and_true]
+    constructor
+    · rw [if_neg (by omega), if_neg (by omega)]
+    · rw [if_neg (by omega)]
+      split
+      · rw [if_neg (by omega)]; omega
+      · rfl
+  by_cases hw : r.length = w
+  · simp only [List.all_cons, List.all_nil, hw, decide_true, Bool.and_self, Bool.not_true, Bool.false_eq_true,
+      if_false, hidx, pySetIdx, if_true, ne_eq, not_true_eq_false]
+    congr 1
+    unfold setSliceSimple
+    simp only
+    rw [List.set_eq_take_append_cons_drop, if_pos (by omega)]
+    have : (max j (j + 1)).toNat = j.toNat + 1 := by omega
+    rw [this]; simp
+  · simp [hw]
+
+theorem getItem_eq (t : T) (i : Int) (h : Aligned t) : getItem t i = pyGetItem (abs t) i := by
+  have hlen := abs_length h
+  unfold getItem pyGetItem getIndex
+  simp only [hlen]
+  generalize (if i < 0 then i + (t.rows.length : Int) else i) = j
+  by_cases hj0 : j < 0
+  · simp [hj0]
+  · by_cases hjn : j ≥ t.rows.length
+    · have hnone : (abs t)[j.toNat]? = none := by rw [List.getElem?_eq_none_iff, hlen]; omega
+      simp [hj0, hjn, hnone]
+    · rw [if_neg (by omega), if_neg hj0]
+      generalize hk : j.toNat = k
+      have hk' : k < t.rows.length := by omega
+      have hR := congrArg (fun L => L[k]?) (resolve_eq_map_some t.rows t.file (Aligned.nd h))
+      simp only [resolve_getElem?, List.getElem?_map] at hR
+      rw [List.getElem?_eq_getElem hk'] at hR ⊢
+      cases ho : t.rows[k] with
+      | some r =>
+        rw [ho] at hR
+        have : (abs t)[k]? = some r := by
+          unfold abs; cases hx : (absL t.rows t.file)[k]? <;> simp [hx] at hR; simp [hR]
+        simp [this]
+      | none =>
+        rw [ho] at hR
+        have hlt : k < t.file.length := (Aligned.nd h) k (by rw [List.getElem?_eq_getElem hk', ho])
+        rw [List.getElem?_eq_getElem hlt] at hR ⊢
+        have : (abs t)[k]? = some t.file[k] := by
+          unfold abs; cases hx : (absL t.rows t.file)[k]? <;> simp [hx] at hR; simp [hR]
+        simp [this]
+
+
+theorem zipIdx_filterMap (A : List Row) (k : Nat) :
+    ((A.map some).zipIdx k).filterMap (fun p => p.1.map (fun r => (p.2, r)))
+      = (A.zipIdx k).map (fun p => (p.2, p.1)) := by
+  induction A generalizing k with
+  | nil => rfl
+  | cons a as ih => simp [List.zipIdx_cons, ih]
+
+theorem enumRows_eq (t : T) (h : Aligned t) :
+    enumRows t = ((abs t).zipIdx).map (fun p => (p.2, p.1)) := by
+  unfold enumRows
+  rw [resolve_eq_map_some _ _ (Aligned.nd h)]
+  exact zipIdx_filterMap _ 0
+
+theorem contains_rangeList_one (a b x : Int) :
+    (rangeList a b 1).contains x = decide (a ≤ x ∧ x < b) := by
+  rw [Bool.eq_iff_iff]
+  simp only [List.contains_iff_mem, decide_eq_true_eq]
+  unfold rangeList
+  simp only [Int.one_pos, if_true, Int.ediv_one, Int.one_mul]
+  split
+  · simp only [List.mem_map, List.mem_range]
+    constructor
+    · rintro ⟨k, hk, rfl⟩; omega
+    · intro hx; exact ⟨(x - a).toNat, by omega, by omega⟩
+  · simp; omega
+
+theorem drop_filter (A : List Row) (k p n : Nat) (hn : n = k + A.length) :
+    (((A.zipIdx k).map (fun q => (q.2, q.1))).filter
+        (fun q => decide ((p : Int) ≤ (q.1 : Int) ∧ (q.1 : Int) < (n : Int)))).map (·.2)
+      = A.drop (p - k) := by
+  induction A generalizing k with
+  | nil => simp
+  | cons a as ih =>
+    simp only [List.zipIdx_cons, List.map_cons, List.filter_cons]
+    have hkn : (k : Int) < (n : Int) := by simp at hn; omega
+    by_cases hp : p ≤ k
+    · have : ((p : Int) ≤ (k : Int) ∧ (k : Int) < (n : Int)) := ⟨by omega, hkn⟩
+      simp only [this, and_self, decide_true, if_true, List.map_cons]
+      rw [ih (k + 1) (by simp at hn ⊢; omega)]
+      have h1 : p - (k + 1) = 0 := by omega
+      have h2 : p - k = 0 := by omega
+      simp [h1, h2]
+    · have : ¬ ((p : Int) ≤ (k : Int) ∧ (k : Int) < (n : Int)) := by omega
+      simp only [this, decide_false, Bool.false_eq_true, if_false]
+      rw [ih (k + 1) (by simp at hn ⊢; omega)]
+      have h2 : p - k = (p - (k + 1)) + 1 := by omega
+      rw [h2]; simp
+
+/-- `table[p:]` for `p ≤ len` is the tail of the shown list -/
+theorem iterSlice_from (t : T) (p : Nat) (h : Aligned t) (hp : p ≤ t.rows.length) :
+    iterSlice t ⟨some (p : Int), none, none⟩ = .ok ((abs t).drop p) := by
+  unfold iterSlice
+  have hidx : sliceIndices ⟨some (p : Int), none, none⟩ t.rows.length = some ((p : Int), (t.rows.length : Int), 1) := by
+    unfold sliceIndices
+    simp only [Option.getD_none]
+    rw [if_neg (by omega)]
+    simp only [Option.some.injEq, Prod.mk.injEq, and_true]
+    constructor
+    · rw [if_neg (by omega)]
+      split
+      · rw [if_neg (by omega)]; omega
+      · rfl
+    · rw [if_neg (by omega)]
+  rw [hidx]
+  simp only
+  rw [if_neg (by omega), enumRows_eq t h]
+  congr 1
+  have hf : (fun (q : Nat × Row) => (rangeList (p : Int) (t.rows.length : Int) 1).contains (q.1 : Int))
+      = (fun q => decide ((p : Int) ≤ (q.1 : Int) ∧ (q.1 : Int) < (t.rows.length : Int))) := by
+    funext q; exact contains_rangeList_one _ _ _
+  rw [hf, drop_filter (abs t) 0 p t.rows.length (by rw [abs_length h]; simp)]
+  simp
+
+
+/-! ### sync / commit -/
+
+theorem aligned_sync (t : T) : Aligned (sync t) := by
+  refine ⟨rfl, ?_, ?_, ?_⟩
+  · intro i hi
+    simp only [sync, List.getElem?_replicate] at hi ⊢
+    split at hi <;> simp_all
+  · intro i _ hp
+    simp only [sync, List.getElem?_replicate] at hp ⊢
+    simp [hp]
+  · simp [sync]
+
+theorem abs_sync (t : T) : abs (sync t) = t.file := by
+  simp only [abs, sync]; exact absL_replicate t.file
+
+theorem sync_not_inTransaction (t : T) : inTransaction (sync t) = false := by
+  simp [inTransaction, sync]
+
+/-- below both counters the shown rows are the file lines -/
+theorem abs_take_pers (t : T) (h : Aligned t) (hv : (t.pers : Int) ≤ t.vol) :
+    (abs t).take t.pers = t.file := by
+  have hn : t.pers ≤ t.rows.length := by have := h.vol_le; omega
+  apply List.ext_getElem?
+  intro i
+  rw [List.getElem?_take]
+  by_cases hi : i < t.pers
+  · rw [if_pos hi]
+    have hR := congrArg (fun L => L[i]?) (resolve_eq_map_some t.rows t.file (Aligned.nd h))
+    simp only [resolve_getElem?, List.getElem?_map] at hR
+    rw [h.below_vol i (by omega) hi] at hR
+    have hlt : i < t.file.length := by rw [← h.pers_eq]; exact hi
+    rw [List.getElem?_eq_getElem hlt] at hR ⊢
+    unfold abs
+    cases hx : (absL t.rows t.file)[i]? <;> simp [hx] at hR
+    simp [hR]
+  · rw [if_neg hi]
+    symm
+    rw [List.getElem?_eq_none_iff, ← h.pers_eq]; omega
+
+theorem commit_ok (t t' : T) (h : Aligned t) (hc : commit t = .ok t') :
+    t' = sync { t with file := abs t, gz := t'.gz } ∧ (t.gz = false → t'.gz = false) := by
+  unfold commit at hc
+  split at hc
+  · rename_i htx
+    split at hc
+    · rename_i hv
+      have hn : t.pers ≤ t.rows.length := by have := h.vol_le; omega
+      rw [iterSlice_from t t.pers h hn] at hc
+      simp only at hc
+      split at hc
+      · cases hc
+      · rename_i hgz
+        injection hc with hc
+        subst hc
+        have hfile : t.file ++ (abs t).drop t.pers = abs t := by
+          conv => rhs; rw [← List.take_append_drop t.pers (abs t)]
+          rw [abs_take_pers t h hv]
+        simp only [sync, hfile]
+        simp
+    · injection hc with hc
+      subst hc
+      simp [sync]
+  · rename_i htx
+    injection hc with hc
+    subst hc
+    -- not in transaction: the table is all placeholders over the whole file
+    simp only [inTransaction, Bool.or_eq_true, decide_eq_true_eq, not_or, Nat.not_lt, Int.not_lt] at htx
+    have hn : t.rows.length = t.pers := by have := h.vol_le; omega
+    have hfile : abs t = t.file := by
+      have := abs_take_pers t h htx.2
+      rw [← this, List.take_of_length_le]
+      rw [abs_length h]; omega
+    simp [sync, hfile]
+
+theorem commit_err (t : T) (e : Err) (h : Aligned t) (hc : commit t = .error e) :
+    e = .notImplemented ∧ t.gz = true := by
+  unfold commit at hc
+  split at hc
+  · split at hc
+    · rename_i hv
+      have hn : t.pers ≤ t.rows.length := by have := h.vol_le; omega
+      rw [iterSlice_from t t.pers h hn] at hc
+      simp only at hc
+      split at hc
+      · rename_i hgz; cases hc; exact ⟨rfl, hgz⟩
+      · cases hc
+    · cases hc
+  · cases hc
+
+
+/-! ### extend -/
+
+def good (w : Nat) (rs : List Row) : List Row := rs.takeWhile (fun r => decide (r.length = w))
+def extErr (w : Nat) (rs : List Row) : Option Err :=
+  if rs.all (fun r => decide (r.length = w)) then none else some .itsdbError
+
+theorem extendL_spec {α} (w : Nat) (mk : Row → α) (acc : List α) (rs : List Row) :
+    extendL w mk acc rs = (acc ++ (good w rs).map mk, extErr w rs) := by
+  induction rs generalizing acc with
+  | nil => simp [extendL, good, extErr]
+  | cons r rs ih =>
+    unfold extendL
+    by_cases hr : r.length = w
+    · rw [if_pos hr, ih]
+      simp [good, extErr, hr]
+    · rw [if_neg hr]
+      simp [good, extErr, hr]
+
+theorem extend_refines (t : T) (rs : List Row) (h : Aligned t) :
+    Aligned { t with rows := (extendL t.width some t.rows rs).1 }
+    ∧ extendL t.width id (abs t) rs
+        = (abs { t with rows := (extendL t.width some t.rows rs).1 }, (extendL t.width some t.rows rs).2) := by
+  rw [extendL_spec, extendL_spec]
+  simp only
+  have hnd := Aligned.nd h
+  constructor
+  · refine ⟨h.pers_eq, ?_, ?_, ?_⟩
+    · intro i hi
+      simp only at hi
+      by_cases hlt : i < t.rows.length
+      · rw [List.getElem?_append_left hlt] at hi; exact h.none_lt i hi
+      · rw [List.getElem?_append_right (by omega)] at hi
+        simp at hi
+    · intro i hi hp
+      simp only at hi ⊢
+      have := h.vol_le
+      rw [List.getElem?_append_left (by omega)]
+      exact h.below_vol i hi hp
+    · simp only [List.length_append]
+      have := h.vol_le
+      omega
+  · congr 1
+    simp only [abs, absL]
+    rw [resolve_append, resolve_map_some, resolve_eq_map_some _ _ hnd, List.filterMap_append,
+      filterMap_id_map_some, filterMap_id_map_some]
+    simp
+
+/-! ### setItem / update -/
+
+theorem setItem_ok (t t' : T) (i : Int) (r : Row) (h : Aligned t) (hs : setItem t i r = .ok t') :
+    Aligned t' ∧ specSetItem t.width (abs t) i r = .ok (abs t')
+      ∧ t'.file = t.file ∧ t'.gz = t.gz ∧ t'.width = t.width := by
+  unfold setItem at hs
+  unfold specSetItem
+  simp only [abs_length h] at hs ⊢
+  generalize (if i < 0 then (t.rows.length : Int) + i else i) = j at hs ⊢
+  split at hs
+  · cases hs
+  rename_i hj
+  rw [if_neg hj]
+  obtain ⟨hA, hspec, hf, hg, hw⟩ := setSlice_ok t t' _ _ h hs
+  rw [specSetSlice_single t.width (abs t) j r (by omega) (by rw [abs_length h]; omega)] at hspec
+  exact ⟨hA, hspec, hf, hg, hw⟩
+
+theorem setItem_err (t : T) (i : Int) (r : Row) (e : Err) (h : Aligned t) (hs : setItem t i r = .error e) :
+    specSetItem t.width (abs t) i r = .error e := by
+  unfold setItem at hs
+  unfold specSetItem
+  simp only [abs_length h] at hs ⊢
+  generalize (if i < 0 then (t.rows.length : Int) + i else i) = j at hs ⊢
+  split at hs
+  · rename_i hj; rw [if_pos hj]; cases hs; rfl
+  rename_i hj
+  rw [if_neg hj]
+  have hspec := setSlice_err t _ _ e h hs
+  rw [specSetSlice_single t.width (abs t) j r (by omega) (by rw [abs_length h]; omega)] at hspec
+  exact hspec
+
+theorem update_ok (t t' : T) (i : Int) (cols : List (Nat × Nat)) (h : Aligned t)
+    (hs : update t i cols = .ok t') :
+    Aligned t' ∧ specUpdate t.width (abs t) i cols = .ok (abs t')
+      ∧ t'.file = t.file ∧ t'.gz = t.gz ∧ t'.width = t.width := by
+  unfold update at hs
+  unfold specUpdate
+  rw [getItem_eq t i h] at hs
+  cases hg : pyGetItem (abs t) i with
+  | error e => rw [hg] at hs; cases hs
+  | ok r =>
+    rw [hg] at hs
+    simp only [bind, Except.bind] at hs ⊢
+    cases ha : applyCols t.width r cols with
+    | error e => rw [ha] at hs; cases hs
+    | ok r' =>
+      rw [ha] at hs
+      simp only at hs ⊢
+      exact setItem_ok t t' i r' h hs
+
+theorem update_err (t : T) (i : Int) (cols : List (Nat × Nat)) (e : Err) (h : Aligned t)
+    (hs : update t i cols = .error e) : specUpdate t.width (abs t) i cols = .error e := by
+  unfold update at hs
+  unfold specUpdate
+  rw [getItem_eq t i h] at hs
+  cases hg : pyGetItem (abs t) i with
+  | error e' => rw [hg] at hs; simp only [bind, Except.bind] at hs ⊢; cases hs; rfl
+  | ok r =>
+    rw [hg] at hs
+    simp only [bind, Except.bind] at hs ⊢
+    cases ha : applyCols t.width r cols with
+    | error e' => rw [ha] at hs; simp only at hs ⊢; cases hs; rfl
+    | ok r' =>
+      rw [ha] at hs
+      simp only at hs ⊢
+      exact setItem_err t i r' e h hs
+
+
+/-- what one step guarantees -/
+def StepOK (t : T) (op : Op) : Prop :=
+  Aligned (step t op).1 ∧ (step t op).1.width = t.width ∧ (t.gz = false → (step t op).1.gz = false)
+  ∧ (specStep t.width (absS t) op = (absS (step t op).1, (step t op).2)
+      ∨ (op = .commit ∧ t.gz = true ∧ step t op = (t, some .notImplemented)))
+
+theorem step_ok (t : T) (op : Op) (h : Aligned t) : StepOK t op := by
+  unfold StepOK
+  cases op with
+  | append r =>
+    obtain ⟨hA, hE⟩ := extend_refines t [r] h
+    refine ⟨hA, rfl, fun hg => hg, Or.inl ?_⟩
+    simp only [specStep, step, absS, hE]
+  | extend rs =>
+    obtain ⟨hA, hE⟩ := extend_refines t rs h
+    refine ⟨hA, rfl, fun hg => hg, Or.inl ?_⟩
+    simp only [specStep, step, absS, hE]
+  | setItem i r =>
+    simp only [step, specStep]
+    cases hs : setItem t i r with
+    | ok t' =>
+      obtain ⟨hA, hspec, hf, hg, hw⟩ := setItem_ok t t' i r h hs
+      refine ⟨hA, hw, fun hh => by simp only [ofExcept]; rw [hg]; exact hh, Or.inl ?_⟩
+      simp only [ofExcept, absS, hspec, ofExceptS, hf]
+    | error e =>
+      have hspec := setItem_err t i r e h hs
+      refine ⟨h, rfl, fun hh => hh, Or.inl ?_⟩
+      simp only [ofExcept, absS, hspec, ofExceptS]
+  | setSlice sl vals =>
+    simp only [step, specStep]
+    cases hs : setSlice t sl vals with
+    | ok t' =>
+      obtain ⟨hA, hspec, hf, hg, hw⟩ := setSlice_ok t t' sl vals h hs
+      refine ⟨hA, hw, fun hh => by simp only [ofExcept]; rw [hg]; exact hh, Or.inl ?_⟩
+      simp only [ofExcept, absS, hspec, ofExceptS, hf]
+    | error e =>
+      have hspec := setSlice_err t sl vals e h hs
+      refine ⟨h, rfl, fun hh => hh, Or.inl ?_⟩
+      simp only [ofExcept, absS, hspec, ofExceptS]
+  | update i cols =>
+    simp only [step, specStep]
+    cases hs : update t i cols with
+    | ok t' =>
+      obtain ⟨hA, hspec, hf, hg, hw⟩ := update_ok t t' i cols h hs
+      refine ⟨hA, hw, fun hh => by simp only [ofExcept]; rw [hg]; exact hh, Or.inl ?_⟩
+      simp only [ofExcept, absS, hspec, ofExceptS, hf]
+    | error e =>
+      have hspec := update_err t i cols e h hs
+      refine ⟨h, rfl, fun hh => hh, Or.inl ?_⟩
+      simp only [ofExcept, absS, hspec, ofExceptS]
+  | clear =>
+    refine ⟨⟨h.pers_eq, ?_, ?_, ?_⟩, rfl, fun hg => hg, Or.inl ?_⟩
+    · intro i hi; simp [step] at hi
+    · intro i hi; simp [step] at hi; omega
+    · simp [step]
+    · simp [specStep, step, absS, abs, absL, resolve]
+  | commit =>
+    simp only [step, specStep]
+    cases hc : commit t with
+    | ok t' =>
+      obtain ⟨ht', hgz⟩ := commit_ok t t' h hc
+      refine ⟨by simp only [ofExcept]; rw [ht']; exact aligned_sync _,
+              by simp only [ofExcept]; rw [ht']; rfl, fun hh => hgz hh, Or.inl ?_⟩
+      simp only [ofExcept, absS]
+      rw [ht', abs_sync]
+      rfl
+    | error e =>
+      obtain ⟨he, hgz⟩ := commit_err t e h hc
+      subst he
+      exact ⟨h, rfl, fun hh => hh, Or.inr ⟨trivial, hgz, rfl⟩⟩
+  | reload =>
+    refine ⟨aligned_sync t, rfl, fun hg => hg, Or.inl ?_⟩
+    simp only [specStep, step, absS, abs_sync]; rfl
+  | reopen =>
+    refine ⟨aligned_sync t, rfl, fun hg => hg, Or.inl ?_⟩
+    simp only [specStep, step, absS, abs_sync]; rfl
+
+
+theorem commit_sync (u : T) : commit (sync u) = .ok (sync u) := by
+  unfold commit
+  rw [if_neg (by simp [sync_not_inTransaction])]
+  simp [sync]
+
+/-! ### the suite: process -/
+
+def AllAligned (s : Suite) : Prop := ∀ t ∈ s, Aligned t
+
+/-- what table `j` of the suite shows (`[]` for a table that does not exist) -/
+def content (s : Suite) (j : Nat) : List Row := ((s[j]?).map abs).getD []
+
+def rowsFor (j : Nat) (prod : List (Nat × Row)) : List Row :=
+  (prod.filter (fun p => p.1 == j)).map (·.2)
+
+theorem commitAll_abs (s s' : Suite) (h : AllAligned s) (hc : commitAll s = (s', none)) :
+    AllAligned s' ∧ s'.map abs = s.map abs := by
+  induction s generalizing s' with
+  | nil => simp [commitAll] at hc; subst hc; exact ⟨h, rfl⟩
+  | cons t ts ih =>
+    unfold commitAll at hc
+    cases hct : commit t with
+    | error e => rw [hct] at hc; simp at hc
+    | ok t' =>
+      rw [hct] at hc
+      simp only at hc
+      cases hrest : commitAll ts with
+      | mk ts' e =>
+        rw [hrest] at hc
+        simp only [Prod.mk.injEq] at hc
+        obtain ⟨rfl, rfl⟩ := hc
+        have hts : AllAligned ts := fun u hu => h u (by simp [hu])
+        obtain ⟨hA, hmap⟩ := ih ts' hts hrest
+        obtain ⟨ht', _⟩ := commit_ok t t' (h t (by simp)) hct
+        have habs : abs t' = abs t := by
+          generalize t'.gz = g at ht'; subst ht'; exact abs_sync _
+        have hal : Aligned t' := by
+          generalize t'.gz = g at ht'; subst ht'; exact aligned_sync _
+        refine ⟨?_, by simp [habs, hmap]⟩
+        intro u hu
+        simp only [List.mem_cons] at hu
+        rcases hu with rfl | hu
+        · exact hal
+        · exact hA u hu
+
+theorem content_of_map (s s' : Suite) (h : s'.map abs = s.map abs) : content s' = content s := by
+  funext j
+  have := congrArg (fun L => L[j]?) h
+  simp only [List.getElem?_map] at this
+  simp [content, this]
+
+theorem stepAt_append (s s1 : Suite) (k : Nat) (r : Row) (h : AllAligned s)
+    (hs : stepAt s k (.append r) = (s1, none)) :
+    AllAligned s1 ∧ content s1 = fun j => if j = k then content s j ++ [r] else content s j := by
+  unfold stepAt at hs
+  cases hk : s[k]? with
+  | none => rw [hk] at hs; simp at hs
+  | some t =>
+    rw [hk] at hs
+    simp only [Prod.mk.injEq] at hs
+    obtain ⟨rfl, he⟩ := hs
+    have hkl : k < s.length := by
+      rcases Nat.lt_or_ge k s.length with h1 | h1
+      · exact h1
+      · rw [List.getElem?_eq_none_iff.mpr h1] at hk; cases hk
+    have ht : Aligned t := h t (List.mem_of_getElem? hk)
+    obtain ⟨hA, hE⟩ := extend_refines t [r] ht
+    have hstep : step t (.append r) = ({ t with rows := (extendL t.width some t.rows [r]).1 },
+        (extendL t.width some t.rows [r]).2) := rfl
+    rw [hstep] at he ⊢
+    simp only at he
+    rw [he] at hE
+    have habs : abs { t with rows := (extendL t.width some t.rows [r]).1 } = abs t ++ [r] := by
+      by_cases hw : r.length = t.width
+      · have h1 : extendL t.width id (abs t) [r] = (abs t ++ [r], none) := by simp [extendL, hw]
+        rw [h1] at hE
+        exact (congrArg Prod.fst hE).symm
+      · have h1 : (extendL t.width some t.rows [r]).2 = some .itsdbError := by simp [extendL, hw]
+        rw [h1] at he; cases he
+    have hget : s[k] = t := by
+      rw [List.getElem?_eq_getElem hkl] at hk; exact Option.some.inj hk
+    constructor
+    · intro u hu
+      rcases List.mem_or_eq_of_mem_set hu with hu | rfl
+      · exact h u hu
+      · exact hA
+    · funext j
+      by_cases hj : j = k
+      · subst hj
+        simp [content, hkl, habs, hget]
+      · simp [content, hj, Ne.symm hj]
+
+theorem addRow_content (s s1 : Suite) (b : Int) (k : Nat) (r : Row) (h : AllAligned s)
+    (hs : addRow s b k r = (s1, none)) :
+    AllAligned s1 ∧ content s1 = fun j => if j = k then content s j ++ [r] else content s j := by
+  unfold addRow at hs
+  cases hst : stepAt s k (.append r) with
+  | mk s0 e =>
+    rw [hst] at hs
+    cases e with
+    | some e => simp at hs
+    | none =>
+      simp only at hs
+      obtain ⟨hA0, hc0⟩ := stepAt_append s s0 k r h hst
+      split at hs
+      · obtain ⟨hA1, hm⟩ := commitAll_abs s0 s1 hA0 hs
+        exact ⟨hA1, by rw [content_of_map _ _ hm, hc0]⟩
+      · simp only [Prod.mk.injEq, and_true] at hs
+        subst hs
+        exact ⟨hA0, hc0⟩
+
+theorem addRows_content (s s1 : Suite) (b : Int) (prod : List (Nat × Row)) (h : AllAligned s)
+    (hs : addRows s b prod = (s1, none)) :
+    AllAligned s1 ∧ content s1 = fun j => content s j ++ rowsFor j prod := by
+  induction prod generalizing s with
+  | nil =>
+    simp only [addRows, Prod.mk.injEq, and_true] at hs
+    subst hs
+    exact ⟨h, by funext j; simp [rowsFor]⟩
+  | cons p ps ih =>
+    obtain ⟨k, r⟩ := p
+    unfold addRows at hs
+    cases ha : addRow s b k r with
+    | mk s0 e =>
+      rw [ha] at hs
+      cases e with
+      | some e => simp at hs
+      | none =>
+        simp only at hs
+        obtain ⟨hA0, hc0⟩ := addRow_content s s0 b k r h ha
+        obtain ⟨hA1, hc1⟩ := ih s0 hA0 hs
+        refine ⟨hA1, ?_⟩
+        rw [hc1, hc0]
+        funext j
+        by_cases hj : j = k
+        · subst hj; simp [rowsFor, List.filter_cons]
+        · have : (k == j) = false := by simp [Ne.symm hj]
+          simp [rowsFor, List.filter_cons, hj, this]
+
+
+/-- the stored relation of table `j` -/
+def stored (s : Suite) (j : Nat) : List Row := ((s[j]?).map (·.file)).getD []
+
+theorem clearAt_getElem? (s : Suite) (ks : List Nat) (j : Nat) :
+    (clearAt s ks)[j]? = (s[j]?).map (fun t => if ks.contains j then { t with rows := [], vol := 0 } else t) := by
+  unfold clearAt
+  rw [List.getElem?_map, List.getElem?_zipIdx]
+  cases s[j]? <;> simp
+
+theorem clearAt_aligned (s : Suite) (ks : List Nat) (h : AllAligned s) : AllAligned (clearAt s ks) := by
+  intro u hu
+  rw [List.mem_iff_getElem?] at hu
+  obtain ⟨j, hj⟩ := hu
+  rw [clearAt_getElem?] at hj
+  cases hs : s[j]? with
+  | none => rw [hs] at hj; cases hj
+  | some t =>
+    rw [hs] at hj
+    simp only [Option.map_some, Option.some.injEq] at hj
+    have ht : Aligned t := h t (List.mem_of_getElem? hs)
+    split at hj
+    · subst hj; exact (step_ok t .clear ht).1
+    · subst hj; exact ht
+
+theorem clearAt_content (s : Suite) (ks : List Nat) (j : Nat) :
+    content (clearAt s ks) j = if ks.contains j then [] else content s j := by
+  unfold content
+  rw [clearAt_getElem?]
+  cases s[j]? with
+  | none => simp
+  | some t =>
+    by_cases hk : j ∈ ks
+    · simp [hk, abs, absL, resolve]
+    · simp [hk]
+
+theorem process_content (s s' : Suite) (b : Int) (g : Bool) (aff : List Nat) (prod : List (Nat × Row))
+    (h : AllAligned s) (hp : process s b g aff prod = (s', none)) (j : Nat) :
+    content s' j = (if aff.contains j then [] else content s j) ++ rowsFor j prod
+    ∧ stored s' j = (if aff.contains j then [] else content s j) ++ rowsFor j prod := by
+  unfold process at hp
+  cases ha : addRows (clearAt s aff) b prod with
+  | mk s1 e =>
+    rw [ha] at hp
+    cases e with
+    | some e => simp at hp
+    | none =>
+      simp only [Prod.mk.injEq, and_true] at hp
+      subst hp
+      obtain ⟨_, hc⟩ := addRows_content _ s1 b prod (clearAt_aligned s aff h) ha
+      have hcj := congrFun hc j
+      simp only [clearAt_content] at hcj
+      rw [← hcj]
+      unfold content stored reloadAll writeDatabase
+      simp only [List.getElem?_map]
+      cases s1[j]? with
+      | none => simp
+      | some t =>
+        simp only [Option.map_some, Option.getD_some]
+        exact ⟨abs_sync _, rfl⟩
+
+
+end L
+end Verif.C10
